@@ -1,4 +1,5 @@
-import MetadorModel.Proofs.ContainerInit
+import MetadorModel.Proofs.ContainerDelete
+import MetadorModel.Proofs.ContainerReload
 /-!
 # C06 — TOC and attached metadata stay in one-to-one sync
 
@@ -158,7 +159,7 @@ theorem no_empty_bookkeeping_groups (hi : Inv e s) {q : Path} (hint : isInternal
       by_cases hp : UsedIn s.raw r
       · exact ⟨.jsonschema, by
           have := (hi.toc.json r).1 hp
-          simp only [schemaDir] at this
+          simp only [schemaDir, List.cons_append, List.nil_append] at this
           simp [this]⟩
       · have := (hi.toc.sdir r).2 hp
         simp only [schemaDir] at this; rw [this] at hg; cases hg
@@ -227,6 +228,56 @@ final state of `opMeta` is the state left behind whatever the individual outcome
 theorem sync_meta (he : WFEnv e) (hi : Inv e s) (p : Path) (ops : List MetaOp) :
     Inv e (opMeta e p ops s).2 := opMeta_inv he hi p ops
 
+/-- `create_group`, success or failure -/
+theorem sync_create_group (hi : Inv e s) (p : Path) : Inv e (opCreateGroup p s).2 := opCreateGroup_inv hi p
+
+/-- `group[name] = data`, success or failure -/
+theorem sync_create_dataset (hi : Inv e s) (p : Path) (tok : String) : Inv e (opCreateDataset p tok s).2 :=
+  opCreateDataset_inv hi p tok
+
+/-- `del group[name]` (with the `_destroy_meta` recursion over everything below), success or failure -/
+theorem sync_delete (he : WFEnv e) (hi : Inv e s) (p : Path) : Inv e (opDelete p s).2 := opDelete_inv he hi p
+
+/-- close and reopen: the caches rebuilt from disk satisfy the invariant again -/
+theorem sync_reopen (he : WFEnv e) (hi : Inv e s) : Inv e (opReopen s).2 := opReopen_inv he hi
+
+/-- *"The same holds after closing and reopening, where the in-memory index rebuilt from disk equals
+the one maintained incrementally"*: `reload s.raw` and `s.c` agree on everything the public TOC API
+reads (`CachesEq`: link table by uuid, set of embedded schemas, `parent_path`, domain and members of
+`children`, `packages`, `provider`). Literal equality of the Python containers is not claimed (and
+is false: dict orders differ, `_used` keeps empty entries of packages that are no longer needed). -/
+theorem cache_coherent (he : WFEnv e) (hi : Inv e s) : CachesEq (reload s.raw) s.c := reload_cachesEq he hi
+
+/-- the operations covered by `sync_step_partial` -/
+def NoCopyMove : Op → Prop
+  | .copy _ _ _ => False
+  | .move _ _ => False
+  | _ => True
+
+/-- full statement: every operation, successful or failed, keeps the invariant -/
+def sync_step_statement : Prop :=
+  ∀ (e : Env) (s : St) (op : Op), WFEnv e → Inv e s → Inv e (step e op s).2
+
+/-- every operation other than `copy` / `move` keeps the invariant (success and failure) -/
+theorem sync_step_partial (he : WFEnv e) (hi : Inv e s) (op : Op) (hop : NoCopyMove op) :
+    Inv e (step e op s).2 := by
+  cases op with
+  | createGroup p => exact opCreateGroup_inv hi p
+  | createDataset p tok => exact opCreateDataset_inv hi p tok
+  | onMeta p ops => exact opMeta_inv he hi p ops
+  | delete p => exact opDelete_inv he hi p
+  | copy src dst wm => exact absurd hop id
+  | move src dst => exact absurd hop id
+  | reopen => exact opReopen_inv he hi
+  | patch => exact hi
+
+/-- all histories without `copy` / `move` -/
+theorem sync_run_partial (he : WFEnv e) : ∀ (ops : List Op) (s : St), Inv e s → (∀ op ∈ ops, NoCopyMove op) →
+    Inv e (run e s ops)
+  | [], _, hi, _ => hi
+  | op :: ops, s, hi, h =>
+    sync_run_partial he ops _ (sync_step_partial he hi op (h op (by simp))) (fun o ho => h o (List.mem_cons_of_mem _ ho))
+
 /-! ## Non-vacuity: a three-level schema family -/
 
 def aa : SRef := ⟨"vt.aa", (1, 0, 0)⟩
@@ -246,14 +297,20 @@ theorem env3_wf : WFEnv env3 := WFEnv.of_check (by decide)
 
 example : Inv env3 initSt := sync_init env3
 
-/-- a history with a dataset and a group carrying metadata -/
+/-- a history that attaches an object of the grandchild schema to a dataset in a group -/
 def hist1 : List Op :=
   [.createDataset [.user "g", .user "d"] "x",
-   .onMeta [.user "g", .user "d"] [.set "vt.cc" none true "t1", .set "vt.cc" none true "t2", .set "ot.dd" none true "t3"],
-   .onMeta [.user "g"] [.set "vt.bb" none true "t4", .del "vt.bb", .set "vt.aa" none true "t5"]]
+   .onMeta [.user "g", .user "d"] [.set "vt.cc" none true "t1"]]
 
-/-- the state after `hist1` holds three objects -/
-example : ObjAt (run env3 initSt hist1).raw [.user "g", .metaDir "d", .obj cc 0] cc 0 :=
+/-- the state after `hist1` holds an object (so the clauses above are not vacuous there) -/
+theorem hist1_obj : ObjAt (run env3 initSt hist1).raw [.user "g", .metaDir "d", .obj cc 0] cc 0 :=
   ⟨[.user "g"], "d", by decide, rfl, by decide⟩
+
+/-- … and it satisfies the invariant, hence every clause of the property -/
+example : Sync env3 (run env3 initSt hist1) :=
+  sync_of_inv (sync_run_partial env3_wf hist1 initSt (sync_init env3) (by simp [hist1, NoCopyMove]))
+
+example : CachesEq (reload (run env3 initSt hist1).raw) (run env3 initSt hist1).c :=
+  cache_coherent env3_wf (sync_run_partial env3_wf hist1 initSt (sync_init env3) (by simp [hist1, NoCopyMove]))
 
 end MetadorModel.C06
